@@ -73,6 +73,37 @@ def classes_of(d):
     return sorted({n["c"] for _, n in common.tree_nodes(d)})
 
 
+DEEP = 2500
+
+
+def deep_tree(rng, d, depth=DEEP):
+    """builder of a legal but absurdly nested tree `x OR +(+(+( ... d ... )))` (built iteratively, as objects: the
+    harness itself never recurses over it). Every recursive walk of the library gives up on it with RecursionError
+    somewhere in the middle (the caller catches it); whatever it had noted on the way -- an operator seen, names
+    given, chunks collected -- must not leak into the next call (seeded round E: C10, C15, C18 keep such state on
+    a long-lived object and clear it only at the end of a successful call)"""
+    wrapper = rng.choice(["Group", "Plus", "Plus", "Not"])
+    top = rng.choice(["OrOperation", "AndOperation"])
+
+    def build():
+        T = common.impl().tree
+        inner = common.load_tree(d)
+        cls = getattr(T, wrapper)
+        for _ in range(depth):
+            inner = cls(inner)
+        inner.head = " "
+        return getattr(T, top)(T.Word("x", tail=" "), inner)
+    return build
+
+
+def poison(rng, d, fn):
+    """call `fn` on a deeply nested tree and swallow the failure, as an application would"""
+    try:
+        fn(deep_tree(rng, d)())
+    except Exception:
+        pass
+
+
 class SharedObjects:
     """Long-lived library objects (transformers, printers, checkers, builders) must behave like fresh ones whatever
     they processed before. After a case the same long-lived object (one per configuration `key`) is given the case's
@@ -87,25 +118,12 @@ class SharedObjects:
     @staticmethod
     def _run(call, obj, d):
         try:
-            return ("ok", call(obj, common.load_tree(d)))
+            return ("ok", call(obj, d() if callable(d) else common.load_tree(d)))
         except Exception as e:          # the kind of failure is part of the behaviour
             return ("exc", type(e).__name__)
 
-    DEEP = 320
-
     def deep_poison(self, d):
-        """a legal but absurdly nested tree: `x OR (((( ... d ... ))))`. Most recursive walks of the library give up
-        on it with RecursionError somewhere in the middle (the caller catches it); what they had noted on the
-        way -- an operator seen, names given, chunks collected -- must not leak into the next call (seeded round E:
-        C10, C15, C18 keep such state on the instance and clear it only at the end of a successful call)"""
-        wrapper = self.rng.choice(["Group", "Group", "Plus", "Not"])
-        inner = d
-        for _ in range(self.DEEP):
-            inner = gen.mk(wrapper, [inner])
-        first = gen.W("x")
-        first["t"] = " "
-        inner["h"] = " "
-        return gen.mk(self.rng.choice(["OrOperation", "AndOperation"]), [first, inner])
+        return deep_tree(self.rng, d)
 
     def check(self, key, make, call, d, info, mutants=2, poison=(), deep=0.2):
         key = repr(key)
@@ -123,7 +141,7 @@ class SharedObjects:
                 todo.append(("a tree differing in one point (%s)" % mu[1], mu[0]))
         for what, dd in todo:
             try:
-                common.load_tree(dd)
+                dd() if callable(dd) else common.load_tree(dd)
             except Exception:
                 continue
             want = self._run(call, make(), dd)
@@ -131,7 +149,8 @@ class SharedObjects:
             self.ctx.count("history: long-lived %s" % self.label)
             if got != want:
                 self.ctx.fail("a long-lived %s answers differently from a fresh one on %s (history dependence)" % (
-                    self.label, what), dict(info, second_tree=dd, fresh=want, shared=got))
+                    self.label, what), dict(info, second_tree="<deeply nested>" if callable(dd) else dd, fresh=want,
+                                            shared=got))
                 # a polluted object would fail on everything that follows: start again
                 self.objs[key] = make()
                 shared = self.objs[key]
